@@ -68,9 +68,9 @@ def check_C15(rep, known):
     mc_job(rep, 'MC_Bernstein', 'MC_Bernstein.cfg')
     # schemes without a polynomial guarantee must be rejected (fault catalogue entry inf_no_guarantee)
     recs, st = tlc.generate('ScenFault', 'ScenFault.cfg', 'C20', rep.tier, rep.seed, parts=1)
-    recs = [r for r in recs if r['sc']['fault'] in ('inf_no_guarantee', 'inf_nonpolynomial')]
+    recs = [r for r in recs if r['sc']['fault'].startswith('inf_')]
     outs = engine.pool_map('faults', 'replay', recs)
-    engine.process_results(rep, recs, outs, [r'C20\.inf_no'], known)
+    engine.process_results(rep, recs, outs, [r'C20\.inf_'], known)
 
 
 def check_C08(rep, known):
@@ -355,11 +355,23 @@ def check_C10(rep, known):
 
 def check_C11(rep, known):
     scen_job(rep, 'ScenShoot', 'C11', [r'C11\.', r'build', r'varmap'], known)
+    # the fixed-horizon side of the equivalence: grids with variables of their own (free / localized) keep their rows when T, t0 are numbers
+    recs, st = tlc.generate('ScenShoot', 'ScenShoot.cfg', 'C06', rep.tier, rep.seed, parts=16)
+    recs = [r for r in recs if r['sc']['hz'] == 'num' and (r['sc']['grid'] == 'free' or r['sc']['lt0'] or r['sc']['lT'])]
+    outs = engine.pool_map('replay_nlp', 'replay', recs)
+    engine.process_results(rep, recs, outs, [r'C06\.(e|f)', r'build', r'varmap'], known)
     life_job(rep, [r'C11\.'], known)      # set_T / set_t0 along histories: the live time grid is that of the declaration
 
 
 def check_C14(rep, known):
     scen_job(rep, 'ScenShoot', 'C14', [r'C14\.', r'build', r'varmap'], known)
+    # scaled states / controls as to_function arguments (C19 family): the function works on the physical values
+    recs, st = tlc.generate('ScenFun', 'ScenFun.cfg', 'C19', rep.tier, rep.seed, parts=1)
+    import random
+    recs = [r for r in recs if r['sc']['scaled']]
+    recs = random.Random(rep.seed).sample(recs, min(len(recs), 2000 if rep.tier == 'thorough' else 160))
+    outs = engine.pool_map('funs', 'replay', recs)
+    engine.process_results(rep, recs, outs, [r'C19\.a'], known)
 
 
 def check_C18(rep, known):
